@@ -41,6 +41,8 @@ type ABCIGenesis struct {
 	BankSendOff string `json:"bank_send_off,omitempty"`
 	// UpperOwners lists the pool owners (account indexes) that the genesis file spells in upper case bech32
 	UpperOwners []int `json:"upper_owners,omitempty"`
+	// Chain: how the standard modules are configured (bond denomination, unbonding time, community tax ...)
+	Chain ChainCfg `json:"chain,omitempty"`
 }
 
 func wholeUnits(ns int64) (int64, string) {
@@ -88,6 +90,7 @@ func GenABCIGenesis(t *rapid.T) ABCIGenesis {
 	if rapid.IntRange(0, 7).Draw(t, "bankSendOff") == 0 {
 		g.BankSendOff = []string{"default", Denom}[rapid.IntRange(0, 1).Draw(t, "bankSendOffKind")]
 	}
+	g.Chain = DrawChainCfg(t)
 	for _, o := range []int{1, 2} {
 		if n > 0 && rapid.IntRange(0, 3).Draw(t, fmt.Sprintf("upperOwner%d", o)) == 0 {
 			g.UpperOwners = append(g.UpperOwners, o)
@@ -99,6 +102,7 @@ func GenABCIGenesis(t *rapid.T) ABCIGenesis {
 func (g ABCIGenesis) Spec() GenesisSpec {
 	mp, _ := g.Minter.Build()
 	spec := BaseSpec()
+	spec.Chain = g.Chain
 	spec.BankSendOff = g.BankSendOff
 	spec.Minter = &mintertypes.GenesisState{Params: mp, MinterState: mintertypes.MinterState{SequenceId: g.Minter.FirstID, AmountMinted: sdk.ZeroInt(),
 		RemainderToMint: sdk.ZeroDec(), RemainderFromPreviousMinter: sdk.ZeroDec(), LastMintBlockTime: T0}}
@@ -257,7 +261,7 @@ func (d *abciDriver) genTx(label string) plannedTx {
 		}
 		from := FreshAcc(d.created[rapid.IntRange(0, len(d.created)-1).Draw(t, label+"_from")])
 		bal := app.BankKeeper.GetBalance(ctx, from.Addr, Denom).Amount
-		m := &stakingtypes.MsgDelegate{DelegatorAddress: from.Addr.String(), ValidatorAddress: d.c.W.ValAddr.String(), Amount: sdk.NewCoin(Denom, randBelow(t, label+"_amt", bal).AddRaw(1))}
+		m := &stakingtypes.MsgDelegate{DelegatorAddress: from.Addr.String(), ValidatorAddress: d.c.W.ValAddr.String(), Amount: sdk.NewCoin(app.StakingKeeper.BondDenom(ctx), randBelow(t, label+"_amt", bal).AddRaw(1))}
 		return plannedTx{from, []sdk.Msg{m}, "staking", "delegate", nil}
 	case 8:
 		// inflow into a distributor source through a plain bank send (fee collector is blocked; use base sources) or fees
